@@ -142,8 +142,58 @@ func main() {
 			out.Case(input, render(r2), false, kind+":"+opname, "same-object")
 		}
 	}
+	// n-ary folds: (op a b c) and (op a b c d); the operands are read back afterwards and must be unchanged
+	runFold := func(opname, opsym string, vs []val) {
+		names := []string{"a", "b", "c", "d"}
+		src := "(" + opsym
+		input := "fold " + opname
+		for i, v := range vs {
+			env.AddGlobal(names[i], v.sexp())
+			src += " " + names[i]
+			input += " " + v.key()
+		}
+		src += ")"
+		r := lib.Eval(env, src, 100000)
+		obs := render(r)
+		for i := range vs {
+			obs += ";" + render(lib.Eval(env, names[i], 1000))
+		}
+		out.Case(input, obs, true, "fold:"+opname, fmt.Sprintf("fold-arity:%d", len(vs)))
+	}
 	g := grid()
 	if a.Replay == "" {
+		// exhaustive triples over a small value set (zeros, ones, limits, floats) for every operator,
+		// plus random triples/quadruples
+		small := []val{{kind: 'I', i: 0}, {kind: 'I', i: 1}, {kind: 'I', i: -1}, {kind: 'I', i: 10}, {kind: 'I', i: math.MaxInt64}, {kind: 'I', i: math.MinInt64},
+			{kind: 'U', u: 0}, {kind: 'U', u: 7}, {kind: 'U', u: math.MaxUint64}, {kind: 'C', i: 0}, {kind: 'C', i: 97},
+			{kind: 'F', f: 0}, {kind: 'F', f: math.Copysign(0, -1)}, {kind: 'F', f: 2.5}, {kind: 'F', f: math.NaN()}, {kind: 'F', f: math.Inf(1)}}
+		for _, op := range arOps {
+			for _, x := range small {
+				for _, y := range small {
+					for _, z := range small {
+						runFold(op[0], op[1], []val{x, y, z})
+					}
+				}
+			}
+		}
+		frng := lib.NewRng(a.Seed ^ 0x5eed)
+		nf := 3000
+		if a.Tier == "thorough" {
+			nf = 200000
+		}
+		for k := 0; k < nf; k++ {
+			op := arOps[frng.Intn(len(arOps))]
+			n := 3 + frng.Intn(2)
+			vs := make([]val, n)
+			for i := range vs {
+				if frng.Intn(3) == 0 {
+					vs[i] = small[frng.Intn(len(small))]
+				} else {
+					vs[i] = randVal(frng)
+				}
+			}
+			runFold(op[0], op[1], vs)
+		}
 		for _, x := range g {
 			for _, y := range g {
 				for _, op := range cmpOps {
